@@ -328,7 +328,7 @@ def make_doc(shape, lvl, truth_iter):
     return d
 
 
-def documents(r, np, atoms, levels, exhaustive_bits=12, sample=200, max_docs=6000):
+def documents(r, np, atoms, levels, exhaustive_bits=12, sample=160, max_docs=4000):
     """atoms: {key: level or None}.  Yields documents."""
     shapes = doc_shapes(np, sorted(levels))
     if len(shapes) > 60:
@@ -505,7 +505,7 @@ def correspond(model_ok, res):
     r = lib.rng("C05")
     rdoc = lib.rng("C05-docs")
     n = 120 if lib.tier() == "quick" else 1200
-    sessions = witnesses(T, parser) + E.nested_vocab_sessions(r, T, n // 2) + \
+    sessions = witnesses(T, parser) + E.nested_vocab_sessions(r, T, n // 3) + \
         E.builder_sessions(r, T, n, odd_share=0.2)
     history = {}          # session index -> descriptions of the trees the session's builder has translated
     stats = {"judged": 0, "translated": 0, "refused": 0, "documents": 0, "known": {}, "unjudged": 0,
